@@ -461,6 +461,24 @@ fn c13_case(ctx: &Ctx, st: &mut TState, idx: usize, case: &Case) {
         }
     }
     if labels.len() != legal.len() { st.local.inc("label_count_differs_from_legal_count_(C01_business)"); }
+    // notation is about the position: the same labels on a board whose clocks / repetition bookkeeping say "almost drawn"
+    let has_mate = legal.iter().any(|m| { let n = p.make(m); n.in_check(n.turn) && n.legal_moves().is_empty() });
+    if has_mate || idx % 16 == 3 {
+        let mut hb = to_engine(p);
+        match idx % 3 { 0 => { hb.push_halfmove_clock(99); } 1 => { hb.push_halfmove_clock(100); } _ => { hb.count_current_position(); hb.count_current_position(); } }
+        let again = enumerate_candidate_moves_with_algebraic_notation(&mut hb, turn, st.used_gen());
+        st.local.inc("positions_labelled_again_on_a_board_with_a_drawish_history");
+        for (em, label) in again.iter() {
+            if let Some(rm) = legal.iter().find(|m| rkey(m) == ekey(em)) {
+                let want = p.san(rm, &legal);
+                if *label != want {
+                    let mut r = case.json(); r["move"] = json!(p.uci(rm)); r["engine_label"] = json!(label); r["standard_label"] = json!(want); r["board_history"] = json!(["half-move clock 99", "half-move clock 100", "position registered twice"][idx % 3]);
+                    ctx.violation(&format!("c13:{}:history-dependent", san_diff_class(label, &want)), &format!("move {} in {} is labelled {:?} on a board with {}; standard notation is {:?}", p.uci(rm), p.to_fen(), label, ["half-move clock 99", "half-move clock 100", "the position registered twice"][idx % 3], want), r);
+                    break;
+                }
+            }
+        }
+    }
     if idx % 613 == 0 { ctx.sample(json!({"fen": p.to_fen(), "labels": labels.iter().map(|x| x.1.clone()).collect::<Vec<_>>() })); }
 }
 
